@@ -391,3 +391,94 @@ Proof.
     + intros x. apply Inv0_keys. exact H.
     + exact H4.
 Qed.
+
+(* ---- _cull --------------------------------------------------------------------------- *)
+Lemma last_default_irrelevant {A} (l : list A) d d' : l <> [] -> last l d = last l d'.
+Proof.
+  induction l as [|x l IH]; [contradiction|]. intros _. destruct l; [reflexivity|].
+  change (last (x :: a :: l) d) with (last (a :: l) d). change (last (x :: a :: l) d') with (last (a :: l) d').
+  apply IH. discriminate.
+Qed.
+
+Lemma last_nth_error {A} (l : list A) d y : nth_error l (length l - 1) = Some y -> last l d = y.
+Proof.
+  induction l as [|x l IH]; [discriminate|]. destruct l as [|z l].
+  - simpl. congruence.
+  - change (last (x :: z :: l) d) with (last (z :: l) d). intros H. apply IH.
+    simpl in *. rewrite Nat.sub_0_r in *. exact H.
+Qed.
+
+Lemma cull_inv c s : Inv0 s -> Inv (m_cull c s) /\ m_live (m_cull c s) = m_live s.
+Proof.
+  intros H. unfold m_cull.
+  destruct (dead s) as [|[a b] t] eqn:D.
+  { (* nothing dead: compact_inv's first case shows the last slot is live *)
+    pose proof (compact_inv s H) as C. unfold m_compact in C. rewrite D in C. exact C. }
+  destruct (length (imap s) =? 0) eqn:C0.
+  { apply Nat.eqb_eq in C0. pose proof H as [H1 H2 H3 H4]. rewrite C0 in H4.
+    assert (E : m_live s = []) by (destruct (m_live s); [reflexivity|discriminate]).
+    assert (Em : imap s = []) by (destruct (imap s); [reflexivity|discriminate]).
+    rewrite Em, E. split; [|reflexivity]. apply Inv_empty. }
+  destruct (max_dead_intervals c <? length ((a, b) :: t)); [apply compact_inv; exact H|].
+  destruct (length (items s) <? compaction_factor c * dead_count s); [apply compact_inv; exact H|].
+  destruct (last (items s) (Some 0)) as [y|] eqn:EL.
+  { split; [|reflexivity]. split; [exact H|].
+    destruct (items s) as [|o its] eqn:I; [left; reflexivity|right]. exists y.
+    rewrite (last_default_irrelevant (o :: its) None (Some 0)) by discriminate. exact EL. }
+  (* right-trim *)
+  cbn zeta.
+  destruct (trailing_none_split (items s)) as (T1 & T2 & T3).
+  set (nd := leading_none (rev (items s))) in *.
+  set (n := length (items s) - nd) in *.
+  assert (Ln : length (firstn n (items s)) = n) by (rewrite firstn_length; lia).
+  change (length (firstn n (items s))) with (length (firstn n (items s))) in Ln.
+  generalize Ln. generalize (length (firstn n (items s))). intros n' ->. clear Ln.
+  pose proof H as [H1 H2 H3 H4]. rewrite D in H1.
+  assert (LV : live_of (firstn n (items s)) = live_of (items s)).
+  { rewrite T1 at 2. rewrite live_of_app. rewrite (live_of_all_none (repeat None nd)).
+    - symmetry. apply app_nil_r.
+    - apply Forall_forall. intros o Ho. apply repeat_spec in Ho. exact Ho. }
+  unfold m_live; simpl. split; [|exact LV]. split; [constructor; simpl|].
+  - rewrite (drop_trailing_dead_filter 0 _ n (layout_sorted _ _ _ H1)).
+    apply (layout_cut _ 0 (items s) n H1); [lia|].
+    apply (no_straddle_after_live 0 _ (items s) n H1). destruct T3 as [T3|[_ T3]]; [left|right]; exact T3.
+  - intros x i. split.
+    + intros G. apply H2 in G. assert (Li : i < n).
+      { destruct (Nat.lt_ge_cases i n) as [L|L]; [exact L|exfalso].
+        assert (G' : nth_error (firstn n (items s) ++ repeat None nd) i = Some (Some x)) by (rewrite <- T1; exact G).
+        rewrite nth_error_app2 in G' by (rewrite firstn_length; lia).
+        apply nth_error_In in G'. apply repeat_spec in G'. discriminate. }
+      rewrite nth_error_firstn by exact Li. exact G.
+    + intros G. apply nth_error_firstn_some in G. apply H2. tauto.
+  - exact H3.
+  - unfold m_live; simpl. rewrite LV. exact H4.
+  - cbn [items]. destruct T3 as [T3|[Tn [x T3]]]; [left; rewrite T3; reflexivity|right]. exists x.
+    apply last_nth_error. cbn [items]. rewrite firstn_length. replace (Init.Nat.min n (length (items s))) with n by lia.
+    rewrite nth_error_firstn by lia. exact T3.
+Qed.
+
+(* ---- remove / discard ---------------------------------------------------------------- *)
+Lemma remove_inv c s x : Inv s ->
+  Inv (fst (m_remove c s x)) /\
+  m_live (fst (m_remove c s x)) = l_remove x (m_live s) /\
+  snd (m_remove c s x) = (if l_mem x (m_live s) then Ok RNone else Raise KeyError).
+Proof.
+  intros [H HL]. unfold m_remove. rewrite <- (contains_eq s x H). unfold m_contains, d_mem.
+  destruct (d_get (imap s) x) as [r|] eqn:G; simpl.
+  - assert (E : nth_error (items s) r = Some (Some x)) by (apply H; exact G).
+    destruct (kill_inv0 s r x H E) as [K1 K2].
+    destruct (cull_inv c _ K1) as [C1 C2].
+    split; [exact C1|]. split; [|reflexivity]. rewrite C2, K2.
+    unfold m_live. rewrite (live_split _ _ _ E). symmetry. apply l_remove_app.
+    (* x does not occur before its own slot *)
+    intros Hin. apply In_live_of in Hin. apply In_nth_error in Hin. destruct Hin as [j Hj].
+    apply nth_error_firstn_some in Hj. destruct Hj as [Lj Hj].
+    pose proof (map_ok_inj _ _ _ _ _ (inv_map s H) Hj E). lia.
+  - split; [split; assumption|]. split; [|reflexivity].
+    symmetry. apply l_remove_notin. intros Hin. apply (Inv0_keys s x H) in Hin.
+    unfold d_mem in Hin. rewrite G in Hin. discriminate.
+Qed.
+
+Lemma discard_inv c s x : Inv s ->
+  Inv (m_discard c s x) /\ m_live (m_discard c s x) = l_remove x (m_live s).
+Proof. intros H. destruct (remove_inv c s x H) as (A & B & _). split; assumption. Qed.
